@@ -1,4 +1,5 @@
 """C18 — ADC is a true n-bit quantiser; shortest_int returns a shortest covering interval."""
+import json
 import math
 import random
 import warnings
@@ -43,7 +44,10 @@ PARTIAL = [
     "decimal value of its repr, as the translator reads 99.99)",
     "float rounding of (s-V_min)/(V_max-V_min)*(2^n-1) and of the 'v' levels: codes are compared exactly on dyadic records and up "
     "to a half-step tie (|frac-1/2| < 1e-9) on general records; 'v' levels at 1e-9*span + 8 ulp of the magnitude (no absolute floor)",
-    "fs != None (scipy resample) is not modelled; V_max = V_min (0/0 -> nan) is an excluded point (feature degenerate-range)",
+    "fs != None: scipy.signal.resample is a library call (not modelled); the harness resamples the record with the same call and "
+    "every ADC clause, and the model, are applied to the resampled record; V_max = V_min (0/0 -> nan) is an excluded point "
+    "(feature degenerate-range)",
+    "positional twins (ADC(input, fs, n, otype), shortest_int(data, percent)) and result-aliasing are run-time clauses (oracle only)",
 ]
 ASSUMPTIONS = [
     "Python floats are shipped to the model as exact rationals; np.sort is a sort; np.round rounds half to even; np.clip saturates",
@@ -160,7 +164,36 @@ def effective_record(case):
     if case.get("noise") is not None:
         ns = make_record(case["noise"])
         xs = [a + b for a, b in zip(xs, ns)]
+    if case.get("fs_ratio") is not None:
+        # ADC(x, fs=ratio*gv.fs): the record that is quantised is the input resampled to int(len*fs/gv.fs) samples
+        # (scipy.signal.resample, exactly as the documented option does); every clause is judged on that record
+        import scipy.signal as sg
+        key = json.dumps(case, sort_keys=True, default=str)
+        if key not in _RESAMPLED:
+            if len(_RESAMPLED) > 64:
+                _RESAMPLED.clear()
+            fs0 = _gv_fs()
+            m = int(len(xs) * (case["fs_ratio"] * fs0) / fs0)
+            _RESAMPLED[key] = [float(v) for v in sg.resample(np.array(xs, dtype=float), m)]
+        xs = _RESAMPLED[key]
     return xs
+
+
+_RESAMPLED = {}
+
+
+def _gv_fs():
+    from opticomlib import gv
+    return float(gv.fs)
+
+
+# documented positional order of the anchored functions (literal copy of the signatures at /repo 8caea4c)
+SIGNATURES = {"ADC": ["input", "fs", "n", "otype"], "shortest_int": ["data", "percent"]}
+
+
+def _same_arrays(a, b):
+    a, b = np.asarray(a), np.asarray(b)
+    return a.dtype == b.dtype and a.shape == b.shape and bool(np.array_equal(a, b, equal_nan=True))
 
 
 # ---------------------------------------------------------------------------------------------------------------
@@ -360,6 +393,22 @@ def gen_cases(rng, tier):
                                  [rng.randrange(2 * N // 3, N), 8.0 * m[2]]]}
             cases.append({"kind": "adc", "spec": spec, "n": nb, "otype": ot, "exact": False,
                           "input": rng.choice(["ndarray", "electrical_signal"]), "directed": "big-glitch"})
+    # directed: the fs option (resampling before quantising): fs equal to, half and a quarter of gv.fs, container input
+    jf = 0
+    for ratio in [1.0, 0.5, 0.25]:
+        for ot in ["n", "v"]:
+            for rep in range(2 if not thorough else 12):
+                jf += 1
+                N = rng.choice([64, 256, 1000, 4096]) if jf % 6 else 20000
+                dist = ["sine", "gauss", "uniform", "quantised"][jf % 4]
+                spec = {"dist": dist, "N": N, "seed": rng.getrandbits(32), "sigma": 1.0, "mu": 0.2, "a": -1.0, "b": 2.0,
+                        "amp": 10 ** rng.uniform(-1, 1), "off": rng.uniform(-1, 1), "cycles": rng.uniform(2, 9),
+                        "levels": rng.randint(2, 9), "step": 0.5}
+                case = {"kind": "adc", "spec": spec, "n": rng.choice([1, 2, 4, 8, 12]), "otype": ot, "exact": False,
+                        "input": "electrical_signal", "fs_ratio": ratio, "directed": "fs-option"}
+                if jf % 5 == 0:
+                    case["noise"] = {"dist": "gauss", "N": N, "seed": rng.getrandbits(32), "mu": 0.0, "sigma": 0.3}
+                cases.append(case)
     # directed: containers carrying a separate noise array comparable to / larger than the signal swing
     for j in range(16 if not thorough else 120):
         N = rng.choice([64, 500, 4096, 9999, 10000, 20000]) if j % 4 else rng.choice([10000, 12345, 20000])
@@ -458,9 +507,23 @@ def run_impl(case):
                 else:
                     arg = np.array([float(v) for v in data], dtype=float)
                 before = None if isinstance(arg, (list, tuple)) else arg.copy()
+                notes = []
                 with time_limit(30):
-                    out = shortest_int(arg, case["p"])
-                res.update(status="ok", lo=float(out[0]), hi=float(out[1]), n_out=int(np.size(out)))
+                    out = shortest_int(arg, case["p"])                     # positional, documented order (data, percent)
+                    snap = np.array(out, copy=True)
+                    try:
+                        outk = shortest_int(**dict(zip(SIGNATURES["shortest_int"], (arg, case["p"]))))
+                        if not _same_arrays(snap, outk):
+                            notes.append(["positional", "shortest_int", f"positional {snap.tolist()} != keyword {np.asarray(outk).tolist()}"])
+                    except Exception as e:  # noqa
+                        notes.append(["positional", "shortest_int", f"keyword call (data=, percent=) failed: {type(e).__name__}: {e}"[:160]])
+                    if isinstance(out, np.ndarray) and out.size and out.flags.writeable:
+                        out[...] = -12345                                   # scribble on the result, ask again
+                        out2 = shortest_int(arg, case["p"])
+                        if np.shares_memory(out, out2) or not _same_arrays(snap, out2):
+                            notes.append(["result-aliasing", "shortest_int", f"second call gave {np.asarray(out2).tolist()} after the first result was modified, first was {snap.tolist()}"])
+                    out = snap
+                res.update(status="ok", lo=float(out[0]), hi=float(out[1]), n_out=int(np.size(out)), notes=notes)
                 if before is not None and not np.array_equal(before, arg):
                     res["mutated"] = True
             else:
@@ -483,9 +546,17 @@ def run_impl(case):
                     spied.append((float(percent), float(r[0]), float(r[1])))
                     return r
                 D.shortest_int = spy
+                fs = None if case.get("fs_ratio") is None else case["fs_ratio"] * _gv_fs()
+                notes = []
                 try:
                     with time_limit(60):
-                        out = D.ADC(arg, n=case["n"], otype=case["otype"])
+                        out = D.ADC(arg, fs=fs, n=case["n"], otype=case["otype"])          # by keyword
+                        try:
+                            outp = D.ADC(arg, fs, case["n"], case["otype"])                  # positional, documented order
+                            if not _same_arrays(out.signal, outp.signal):
+                                notes.append(["positional", "ADC", "ADC(input, fs, n, otype) passed positionally differs from the keyword call"])
+                        except Exception as e:  # noqa
+                            notes.append(["positional", "ADC", f"positional call failed: {type(e).__name__}: {e}"[:160]])
                 finally:
                     D.shortest_int = real
                 sig = np.asarray(out.signal)
@@ -493,7 +564,7 @@ def run_impl(case):
                            shape=list(sig.shape), noise=None if out.noise is None else "present",
                            vmin=spied[0][1] if spied else None, vmax=spied[0][2] if spied else None,
                            percent=spied[0][0] if spied else None, n_range_calls=len(spied),
-                           input_unchanged=bool(np.array_equal(arr, arr0)), in_dtype=str(arr.dtype))
+                           input_unchanged=bool(np.array_equal(arr, arr0)), in_dtype=str(arr.dtype), notes=notes)
     except Timeout as e:
         res.update(status="timeout", detail=str(e))
     except Exception as e:  # noqa
@@ -653,6 +724,8 @@ def oracle(case, res):
     v = []
     if res["status"] == "timeout":
         return [(f"C18:{case['kind']}:timeout", f"no return on {str(case)[:150]}")]
+    for kind_, func, msg in res.get("notes", []):
+        v.append((f"C18:{kind_}:{func}", msg))
     if case["kind"] == "sint":
         data, p = case["data"], case["p"]
         n = len(data)
@@ -802,6 +875,8 @@ def features(case, res):
             f.append("adc:scale=%g" % spec["scale"])
         if case.get("noise") is not None:
             f.append("adc:separate-noise")
+        if case.get("fs_ratio") is not None:
+            f.append("adc:fs=%g*gv.fs" % case["fs_ratio"])
         if res["status"] == "ok" and res["vmin"] is not None:
             if res["vmin"] == res["vmax"]:
                 f.append("adc:degenerate-range")
